@@ -344,6 +344,7 @@ def assemble (src : Source) (fix : Bool := false) : Except Err BM :=
         | .error e => .error e
         | .ok cps =>
           .ok { rsize := rsize, cps := cps, procs := List.range cps.length,
-                topo := mkTopo cps (pairs src.procs src.ioatts) }
+                topo := mkTopo cps (pairs src.procs src.ioatts),
+                solinks := List.replicate cps.length [] }
 
 end BMV.Basm
